@@ -171,4 +171,41 @@ theorem exTU_solve : (solve (0:ℚ) 1 10 [] exTU).result = .error .unbounded := 
   have h1 : decide (0 > (Props.C14.T1.c.length + Props.C14.T1.a.length + 1)) = false := by decide
   simp only [solve, solveLoop, h1, exTU_step]
 
+/-! ### `min y s.t. y ≥ −3`, `y` free — split into `$py − $my`, surplus column, row negated -/
+
+def exFree : LinModel (Ext ℚ) :=
+  { optType := .min, objective := [.fin 1], offset := .fin 0, vars := ["y"],
+    domain := [{ name := "y", ty := .real .ninf .pinf, usage := 1 }],
+    rows := [{ name := "", coeffs := [.fin 1], cmp := .ge, rhs := .fin (-3) }] }
+
+def exFreeStd : StdModel (Ext ℚ) :=
+  { vars := ["$py", "$my", "$su_1"], objective := [.fin 1, .fin (-1), .fin 0], offset := .fin 0, flip := false,
+    rows := [{ coeffs := [.fin (-1), .fin 1, .fin 1], rhs := .fin 3 }] }
+
+theorem exFree_std : standardize exFree = .ok exFreeStd := by rw [fieldExact_rat]; decide +kernel
+
+theorem exFree_wf : WF exFree := by
+  refine ⟨rfl, ?_, ?_, ?_, ?_, ?_, ?_, ?_, ?_, ?_, Or.inl rfl⟩
+  · simp [exFree, isFin]
+  · simp [exFree, isFin]
+  · simp [exFree]
+  · simp [exFree, isFin]
+  · simp [exFree]
+  · simp [exFree, lookup]
+  · simp [exFree, isContinuous]
+  · simp [exFree, isFin]
+  · simp [exFree]
+
+/-- `$py = 0, $my = 3, $su_1 = 0` is a feasible point of the standard form. -/
+theorem exFree_point : StdFeasible exFreeStd [0, 3, 0] := by
+  refine ⟨rfl, by simp, ?_⟩
+  intro r hr
+  simp only [exFreeStd, List.mem_singleton] at hr
+  subst hr
+  simp [rowVal, toK]
+
+theorem exFree_preimage : preimage exFree [0, 3, 0] = [-3] := by
+  have hf : flags exFree = [true] := by simp [flags, tys, tyOf, lookup, exFree, isFree]
+  simp [preimage, hf, countF, countT, back]
+
 end Rooc.ComposeSimplex
